@@ -119,6 +119,21 @@ std::string LineParser::parse_quoted_string()
             case 't':
                 output += '\t';
                 break;
+            case 'a':
+                output += '\a';
+                break;
+            case 'b':
+                output += '\b';
+                break;
+            case 'f':
+                output += '\f';
+                break;
+            case 'r':
+                output += '\r';
+                break;
+            case 'v':
+                output += '\v';
+                break;
             // Octal encoding possibilities
             // Must be followed by 1, 2, or 3 octal digits '0' - '7' (inclusive)
             case '0':
